@@ -9,8 +9,12 @@
    The pure evaluator of Model/Eval.v cannot thread state, so this file layers a small stateful
    interpreter on it: the store is an explicit argument and result, and Eval's [e_call] hook is
    instantiated with a READ-ONLY view of the current store (GETVAR inside an expression).  A
-   SETVAR can therefore only be modelled where it is a whole select item (the only place where it
-   is meaningful: its result is the Ommit marker); anywhere else the model answers OutOfModel.
+   SETVAR can therefore only be modelled where its result, the Ommit marker, reaches SelectExpr
+   unchanged: as a whole select item ([VSet]), or as a branch result of a CASE expression that is
+   itself a whole select item ([VCase]: CaseExpr evaluates the WHEN conditions in order, returns
+   what the first arm whose condition is true evaluates to - for a SETVAR call the marker, after
+   the store was updated - and SelectExpr then adds no column for the item on that row).  Anywhere
+   else the model answers OutOfModel.
    Definitions only. *)
 From Coq Require Import Floats.
 From GenqlV Require Import Base.Prelude Base.Fmt Base.Value Model.Ast Model.Eval.
@@ -68,10 +72,17 @@ Section Vars.
   Variable Q : Type.          (* subqueries: never evaluated here *)
   Variable data : value.      (* query.data, the document *)
 
+  (* what a CASE arm (or ELSE) evaluates to *)
+  Inductive branch :=
+  | BExpr (e : expr Q)                  (* e                   : e contains no call *)
+  | BSet (k e : expr Q).                (* SETVAR(k, e)        : e may contain GETVAR calls *)
+
   Inductive item :=
   | VSet (k e : expr Q)                 (* SETVAR(k, e)        : e may contain GETVAR calls *)
   | VGet (k : expr Q) (name : string)   (* GETVAR(k) AS name *)
-  | VPure (e : expr Q) (name : string). (* e AS name           : e contains no call *)
+  | VPure (e : expr Q) (name : string)  (* e AS name           : e contains no call *)
+  | VCase (whens : list (expr Q * branch)) (els : option branch) (name : string).
+      (* CASE WHEN c1 THEN b1 ... [ELSE b] END AS name : the conditions may contain GETVAR calls *)
 
   Record query := { q_where : option (expr Q); q_items : list item }.
 
@@ -104,23 +115,60 @@ Section Vars.
   Definition cast {A B} (r : res A) : res B :=
     match r with Ok _ => OutOfModel | Err => Err | Panic => Panic | OutOfModel => OutOfModel end.
 
+  (* a select item (or CASE result) that is the call SETVAR(k, e), the item being named [name]:
+     FuncArgReader: key, then value (which may read the store); then SetVarFunc; then SelectExpr's
+     tail on what the call returned *)
+  Definition run_set (m : vars) (cur acc : row) (k e : expr Q) (name : string) : res row * vars :=
+    match (let! kv := arg env_pure cur k in
+           let! ev := arg (env_rd m) cur e in
+           set_var_func m [kv; ev]) with
+    | Ok (x, m') => (sel_store cur acc name x, m')
+    | bad => (cast bad, m)
+    end.
+
+  (* a select item (or CASE result) that is a call-free expression *)
+  Definition run_pure (cur acc : row) (e : expr Q) (name : string) : res row :=
+    let! x := eval env_pure cur e in sel_store cur acc name x.
+
+  (* CaseExpr's loop: the conditions in order, each against the store as it is now (no arm has
+     been evaluated yet); rs.(bool) on the raw result; the first true condition selects its arm;
+     none: ELSE, or - None - the NullVal literal *)
+  Fixpoint pick (m : vars) (cur : row) (whens : list (expr Q * branch)) (els : option branch)
+    : res (option branch) :=
+    match whens with
+    | [] => Ok els
+    | (c, b) :: r =>
+        let! rc := eval (env_rd m) cur c in
+        match rc with
+        | RVal (VBool true) => Ok (Some b)
+        | RVal (VBool false) => pick m cur r els
+        | _ => Err
+        end
+    end.
+
+  (* Expr(when.Val) / Expr(expr.Else) / Expr(&NullVal{}) and SelectExpr's tail on its result *)
+  Definition run_branch (m : vars) (cur acc : row) (name : string) (b : option branch)
+    : res row * vars :=
+    match b with
+    | Some (BSet k e) => run_set m cur acc k e name
+    | Some (BExpr e) => (run_pure cur acc e name, m)
+    | None => (run_pure cur acc ENull name, m)
+    end.
+
   (* one select item on the current row; the store comes back even when the item fails *)
   Definition run_item (m : vars) (cur acc : row) (it : item) : res row * vars :=
     match it with
-    | VSet k e =>
-        (* FuncArgReader: key, then value (which may read the store); then SetVarFunc *)
-        match (let! kv := arg env_pure cur k in
-               let! ev := arg (env_rd m) cur e in
-               set_var_func m [kv; ev]) with
-        | Ok (x, m') => (sel_store cur acc "" x, m')
-        | bad => (cast bad, m)
-        end
+    | VSet k e => run_set m cur acc k e ""
     | VGet k name =>
         (let! kv := arg env_pure cur k in
          let! x := get_var_func m [kv] in
          sel_store cur acc name x, m)
-    | VPure e name =>
-        (let! x := eval env_pure cur e in sel_store cur acc name x, m)
+    | VPure e name => (run_pure cur acc e name, m)
+    | VCase whens els name =>
+        match pick m cur whens els with
+        | Ok b => run_branch m cur acc name b
+        | bad => (cast bad, m)
+        end
     end.
 
   (* SelectExpr: items left to right *)
@@ -178,8 +226,10 @@ Section Vars.
     end.
 End Vars.
 
-Arguments VSet {Q}. Arguments VGet {Q}. Arguments VPure {Q}.
+Arguments BExpr {Q}. Arguments BSet {Q}.
+Arguments VSet {Q}. Arguments VGet {Q}. Arguments VPure {Q}. Arguments VCase {Q}.
 Arguments Build_query {Q}. Arguments q_where {Q}. Arguments q_items {Q}.
 Arguments env_pure {Q}. Arguments env_rd {Q}. Arguments mk_env {Q}. Arguments arg {Q}.
+Arguments run_set {Q}. Arguments run_pure {Q}. Arguments pick {Q}. Arguments run_branch {Q}.
 Arguments run_item {Q}. Arguments run_row {Q}. Arguments run_rows {Q}.
 Arguments exec_where {Q}. Arguments run_query {Q}. Arguments run_queries {Q}.
